@@ -165,14 +165,14 @@ def property_theorems(prop):
 
 
 def coqchk(props, force=False):
-    """Re-checks the compiled property files and everything they depend on with Coq's independent checker (coqchk -o prints the
-    axioms the loaded libraries rely on).  Cached per content of the compiled files: the thorough tier of every property asks
-    for it, one run serves them all."""
+    """Re-checks compiled property files and everything they depend on with Coq's independent checker (coqchk -o prints the
+    axioms the loaded libraries rely on).  Cached per content of the compiled files and list of modules."""
     h = hashlib.sha256()
     for f in coq_files():
         vo = f[:-2] + ".vo"
         if os.path.exists(vo):
             h.update(open(vo, "rb").read())
+    h.update(" ".join(props).encode())
     key = h.hexdigest()[:16]
     cdir = os.path.join(BUILD, "coqchk")
     os.makedirs(cdir, exist_ok=True)
@@ -396,8 +396,9 @@ class Run:
         self.log("coq: %d property theorems + %d supporting lemmas checked; lint ok; assumptions: %s" % (
             len(pt["names"]), nl, "closed" if not open_ax else json.dumps(open_ax)))
         if self.tier == "thorough":
-            # the independent checker over every property file that is compiled (one cached run per state of the .vo files)
-            ck = coqchk(sorted(CHECKS))
+            # the independent checker over this property's file and everything it depends on (just brought up to date by make;
+            # other property files may be stale with respect to regenerated Gen/*.v and are left to their own checks)
+            ck = coqchk([self.prop])
             self.coverage["coqchk"] = ck
             self.log("coqchk: %s; axioms: %s (%s s)" % ("ok" if ck["ok"] else "FAILED", ck["axioms"], ck["wall_s"]))
             if not ck["ok"]:
